@@ -254,6 +254,9 @@ type solverTask struct {
 	onlyUnsat bool // an abstraction: only unsat is conclusive
 }
 
+// solverErrors collects parse / sort errors reported by a back end: those are engine bugs, never verdicts.
+var solverErrors sync.Map
+
 var solverArgv = map[string]func(time.Duration) []string{
 	"z3-new": func(t time.Duration) []string { return []string{"z3-new", "-in", fmt.Sprintf("-T:%d", int(t.Seconds())+1)} },
 	"cvc5":   func(t time.Duration) []string { return []string{"cvc5", "--lang=smt2", fmt.Sprintf("--tlimit=%d", t.Milliseconds())} },
@@ -278,7 +281,10 @@ func runSolverCtx(ctx context.Context, tk solverTask, timeout time.Duration) Res
 	case "timeout":
 		st = "timeout"
 	default:
-		if d >= timeout {
+		if strings.HasPrefix(first, "(error") {
+			st = "error"
+			solverErrors.Store(first, tk.solver)
+		} else if d >= timeout {
 			st = "timeout"
 		}
 	}
